@@ -6,6 +6,7 @@ import ChessVerif.Spec.Mirror
 import ChessVerif.Spec.ScoreNeg
 import ChessVerif.Proofs.Minimax.Defs
 import ChessVerif.Model.Book
+import ChessVerif.Model.BookGen
 import ChessVerif.Spec.Bot
 
 namespace Chess.Drv
@@ -177,6 +178,75 @@ end Chess.Drv
 
 namespace Chess.Drv
 open Chess Chess.Spec
+
+/-! ### the book builder (`bookgen table|lines <node>...`, nodes in preorder as `mv:count:depth:nchildren`) -/
+
+partial def parseTrie (toks : List String) : Option (Nat × BookGen.Trie × List String) :=
+  match toks with
+  | [] => none
+  | t :: rest =>
+    match (t.splitOn ":").map String.toNat? with
+    | [some mv, some c, some d, some n] =>
+      let rec kids (k : Nat) (toks : List String) (acc : List (Nat × BookGen.Trie)) : Option (List (Nat × BookGen.Trie) × List String) :=
+        if k = 0 then some (acc.reverse, toks) else
+        match parseTrie toks with
+        | some (m, t, toks') => kids (k - 1) toks' ((m, t) :: acc)
+        | none => none
+      match kids n rest [] with
+      | some (cs, rest') => some (mv, .node c d cs, rest')
+      | none => none
+    | _ => none
+
+def tableDigest (a : Array Nat) : Nat := a.foldl (fun d w => (d * 1000003 + w) % 18446744073709551616) 0
+def lineHash (l : List Nat) : Nat := l.foldl (fun h m => (h * 1000003 + m + 1) % 18446744073709551616) 7
+def linesDigest (ls : List (List Nat)) : Nat := ls.foldl (fun d l => (d + lineHash l) % 18446744073709551616) 0
+
+mutual
+/-- words of the block `encode` writes for a kept child: leading 0, its children's blocks, move word (the link word not counted) -/
+partial def blockLen (t : BookGen.Trie) (depth : Nat) : Nat :=
+  2 + (if t.count < BookGen.commitThreshold || t.depthField + depth < 5 then 0 else blocksLen t.children depth)
+partial def blocksLen (cs : List (Nat × BookGen.Trie)) (depth : Nat) : Nat :=
+  cs.foldl (fun a (c : Nat × BookGen.Trie) => a + blockLen c.2 (depth + 1) + 1) 0
+/-- does every sibling link fit a `u16`? -/
+partial def linksFit (t : BookGen.Trie) (depth : Nat) : Bool :=
+  if t.count < BookGen.commitThreshold || t.depthField + depth < 5 then true
+  else t.children.all (fun c => blockLen c.2 (depth + 1) < 65536 && linksFit c.2 (depth + 1))
+end
+
+def handleBookGen : List String → Ans
+  | kind :: toks =>
+    match parseTrie toks with
+    | some (_, t, []) =>
+      let built := BookGen.build t
+      if kind = "table" then
+        ((match built with
+          | some tbl => s!"len={tbl.size} digest={tableDigest tbl}"
+          | none => "refused"), "-")
+      else if kind = "lines" then
+        let modelOut := match built with
+          | some tbl =>
+            let ls := if tbl.size = 0 then [] else BookGen.lines tbl (tbl.size + 1) (tbl.size - 1) [] []
+            s!"inrange={tbl.size = 0 || BookGen.inRange tbl (tbl.size + 1) (tbl.size - 1)} lines={ls.length} ldigest={linesDigest ls}"
+          | none => "refused"
+        -- specification: a trie that fails `validate`, or whose trimming underflows, or one of whose sibling links
+        -- does not fit 16 bits, can only be refused; otherwise the table holds exactly the lines of the trimmed trie that
+        -- `encode` keeps — except the subtree of the FIRST block written (the reader stops before yielding a block
+        -- that starts at table index 0: `checked_sub` fails) — and the walk stays inside it
+        let specOut :=
+          if !BookGen.validate t 0 then "refused" else
+          match BookGen.trim t 0 with
+          | none => "refused"
+          | some (t', _) =>
+            if !linksFit t' 0 then "refused" else
+            let root' : BookGen.Trie :=
+              if t'.count < BookGen.commitThreshold || t'.depthField < 5 then .node t'.count t'.depthField []
+              else .node t'.count t'.depthField (t'.children.drop 1)
+            let ls := BookGen.keptLines root' 0 [] []
+            s!"inrange=true lines={ls.length} ldigest={linesDigest ls}"
+        (modelOut, specOut)
+      else bad
+    | _ => bad
+  | _ => bad
 
 /-- `book walk`: the whole trie; `book sub <i>`: the subtree of the i-th root child (to localise a difference) -/
 def handleBook : List String → Ans
